@@ -196,6 +196,7 @@ pub fn run_batch(p: &'static dyn Prop, seed: u64, thorough: bool, budget: u64, w
     }
     let mut used_slots = workers;
     let mut hangs: Vec<u64> = Vec::new();
+    let mut gave_up = false;
     let mut nap = 1u64;
     while sh.live.load(Ordering::SeqCst) > 0 {
         std::thread::sleep(std::time::Duration::from_millis(nap));
@@ -224,9 +225,16 @@ pub fn run_batch(p: &'static dyn Prop, seed: u64, thorough: bool, budget: u64, w
             sh.live.fetch_sub(1, Ordering::SeqCst);
             hangs.push(i - 1);
             println!("NOTE: scenario index {} (seed {sc_seed}) did not return within 10 s; hangs are C05's subject, the scenario is skipped and its thread abandoned", i - 1);
-            if used_slots >= sh.slots.len() {
-                println!("HARNESS ERROR: {} scenarios hung; giving up (the library loops without consuming input - see the C05 check)", hangs.len());
-                std::process::exit(2);
+            if hangs.len() >= 12 || used_slots >= sh.slots.len() {
+                // the library hangs often: stop handing out work, let the live workers
+                // finish what they are doing and report what was explored
+                if !gave_up {
+                    println!("NOTE: {} scenarios hung (C05's subject); the remaining budget is not explored", hangs.len());
+                }
+                gave_up = true;
+                sh.next.store(u64::MAX / 2, Ordering::SeqCst);
+                sh.first_bad.fetch_min(0, Ordering::SeqCst);
+                continue;
             }
             let (sh2, nw) = (sh.clone(), used_slots);
             used_slots += 1;
